@@ -65,16 +65,18 @@ err_t beltKWPUnwrap(octet dest[], const octet src[], size_t count,
 		!memIsValid(dest, count - 16))
 		return ERR_BAD_INPUT;
 	// создать состояние
-	state = blobCreate(beltKWP_keep() + 16);
+	state = blobCreate(beltKWP_keep() + 32);
 	if (state == 0)
 		return ERR_OUTOFMEMORY;
 	header2 = (octet*)state + beltKWP_keep();
-	// снять защиту
+	// снять защиту (заголовок сохраняется до перезаписи dest)
 	beltKWPStart(state, key, len);
+	if (header)
+		memCopy(header2 + 16, header, 16);
 	memCopy(header2, src + count - 16, 16);
 	memMove(dest, src, count - 16);
 	beltKWPStepD2(dest, header2, count, state);
-	if (header && !memEq(header, header2, 16) ||
+	if (header && !memEq(header2 + 16, header2, 16) ||
 		header == 0 && !memIsZero(header2, 16))
 	{
 		memSetZero(dest, count - 16);
